@@ -18,6 +18,7 @@ package core
 // before.  On the unchanged tree there is nothing to pair.
 
 import (
+	"path/filepath"
 	_ "embed"
 	"fmt"
 	"go/ast"
@@ -41,16 +42,21 @@ type identEntry struct {
 	owner string // receiver type (M) or struct type (S), "" otherwise
 	name  string
 	shape string
+	decl  string // base name of the declaring file (functions only; "" when unknown)
 }
 
 func parseIdents(text string) []identEntry {
 	var out []identEntry
 	for _, l := range strings.Split(text, "\n") {
-		f := strings.SplitN(strings.TrimSpace(l), "\t", 5)
-		if len(f) != 5 {
+		f := strings.Split(strings.TrimRight(l, "\r\n"), "\t")
+		if len(f) != 5 && len(f) != 6 {
 			continue
 		}
-		out = append(out, identEntry{f[0], f[1], f[2], f[3], f[4]})
+		e := identEntry{kind: f[0], pkg: f[1], owner: f[2], name: f[3], shape: f[4]}
+		if len(f) == 6 {
+			e.decl = f[5]
+		}
+		out = append(out, e)
 	}
 	return out
 }
@@ -141,20 +147,20 @@ func collectIdents(pkgs []*packages.Package) []identObj {
 			switch x := o.(type) {
 			case *types.Func:
 				if !x.Exported() {
-					out = append(out, identObj{identEntry: identEntry{"F", p.PkgPath, "", n, shapeOf(x.Type(), 0)}, obj: o, pos: o.Pos()})
+					out = append(out, identObj{identEntry: mkIdent("F", p.PkgPath, "", n, shapeOf(x.Type(), 0)), obj: o, pos: o.Pos()})
 				}
 			case *types.Const:
 				if !x.Exported() {
-					out = append(out, identObj{identEntry: identEntry{"C", p.PkgPath, "", n, shapeOf(x.Type(), 0) + "=" + constText(x.Val())}, obj: o, pos: o.Pos()})
+					out = append(out, identObj{identEntry: mkIdent("C", p.PkgPath, "", n, shapeOf(x.Type(), 0) + "=" + constText(x.Val())), obj: o, pos: o.Pos()})
 				}
 			case *types.Var:
 				if !x.Exported() {
-					out = append(out, identObj{identEntry: identEntry{"V", p.PkgPath, "", n, shapeOf(x.Type(), 0)}, obj: o, pos: o.Pos()})
+					out = append(out, identObj{identEntry: mkIdent("V", p.PkgPath, "", n, shapeOf(x.Type(), 0)), obj: o, pos: o.Pos()})
 				}
 			case *types.TypeName:
 				if x.IsAlias() {
 					if !x.Exported() {
-						out = append(out, identObj{identEntry: identEntry{"T", p.PkgPath, "", n, "alias " + shapeOf(types.Unalias(x.Type()), 0)}, obj: o, pos: o.Pos()})
+						out = append(out, identObj{identEntry: mkIdent("T", p.PkgPath, "", n, "alias " + shapeOf(types.Unalias(x.Type()), 0)), obj: o, pos: o.Pos()})
 					}
 					continue
 				}
@@ -163,20 +169,20 @@ func collectIdents(pkgs []*packages.Package) []identObj {
 					continue
 				}
 				if !x.Exported() {
-					out = append(out, identObj{identEntry: identEntry{"T", p.PkgPath, "", n, shapeOf(named.Underlying(), 0)}, obj: o, pos: o.Pos()})
+					out = append(out, identObj{identEntry: mkIdent("T", p.PkgPath, "", n, shapeOf(named.Underlying(), 0)), obj: o, pos: o.Pos()})
 				}
 				if st, ok := named.Underlying().(*types.Struct); ok {
 					for i := 0; i < st.NumFields(); i++ {
 						f := st.Field(i)
 						if !f.Exported() && !f.Embedded() {
-							out = append(out, identObj{identEntry: identEntry{"S", p.PkgPath, n, f.Name(), shapeOf(f.Type(), 0)}, obj: f, pos: f.Pos()})
+							out = append(out, identObj{identEntry: mkIdent("S", p.PkgPath, n, f.Name(), shapeOf(f.Type(), 0)), obj: f, pos: f.Pos()})
 						}
 					}
 				}
 				for i := 0; i < named.NumMethods(); i++ {
 					m := named.Method(i)
 					if !m.Exported() && !strings.HasSuffix(p.Fset.Position(m.Pos()).Filename, "_test.go") {
-						out = append(out, identObj{identEntry: identEntry{"M", p.PkgPath, n, m.Name(), shapeOf(m.Type(), 0)}, obj: m, pos: m.Pos()})
+						out = append(out, identObj{identEntry: mkIdent("M", p.PkgPath, n, m.Name(), shapeOf(m.Type(), 0)), obj: m, pos: m.Pos()})
 					}
 				}
 			}
@@ -218,7 +224,11 @@ func constText(v constant.Value) string {
 func IdentTable(pkgs []*packages.Package) []string {
 	var out []string
 	for _, e := range collectIdents(pkgs) {
-		out = append(out, strings.Join([]string{e.kind, e.pkg, e.owner, e.name, e.shape}, "\t"))
+		decl := ""
+		if e.kind == "F" {
+			decl = filepath.Base(e.file)
+		}
+		out = append(out, strings.Join([]string{e.kind, e.pkg, e.owner, e.name, e.shape, decl}, "\t"))
 	}
 	return out
 }
@@ -282,11 +292,25 @@ func renamePairs(table []identEntry, cur []identObj) map[types.Object]string {
 			// pair by shape, in declaration order within one shape; a shape with
 			// different numbers of vanished and new names is left alone
 			goneBy, freshBy := map[string][]identEntry{}, map[string][]identObj{}
+			// a renamed function stays in its file: a function that vanished
+			// from one file is not the one that appeared in another
 			for _, e := range gone {
-				goneBy[e.shape] = append(goneBy[e.shape], e)
+				k := e.shape
+				if e.kind == "F" && e.decl != "" {
+					k += "|" + e.decl
+				}
+				goneBy[k] = append(goneBy[k], e)
+			}
+			anyDecl := false
+			for _, e := range gone {
+				anyDecl = anyDecl || (e.kind == "F" && e.decl != "")
 			}
 			for _, e := range fresh {
-				freshBy[e.shape] = append(freshBy[e.shape], e)
+				k := e.shape
+				if e.kind == "F" && anyDecl {
+					k += "|" + filepath.Base(e.file)
+				}
+				freshBy[k] = append(freshBy[k], e)
 			}
 			for sh, gs := range goneBy {
 				fs := freshBy[sh]
@@ -398,4 +422,8 @@ func canonOverlay(pkgs []*packages.Package) (map[string][]byte, []string) {
 		return nil, nil
 	}
 	return overlay, log
+}
+
+func mkIdent(kind, pkg, owner, name, shape string) identEntry {
+	return identEntry{kind: kind, pkg: pkg, owner: owner, name: name, shape: shape}
 }
